@@ -3,6 +3,7 @@ import FastorModel.Driver.Einsum
 import FastorModel.Driver.Expr
 import FastorModel.Driver.Lazy
 import FastorModel.Driver.Config
+import FastorModel.Driver.LU
 /-
   `fmodel`: line-protocol driver.  Reads one case per line on stdin, prints the model's observables
   for it.  The harness prints the implementation's observables for the same case in the same format.
@@ -19,6 +20,7 @@ def step (line : String) : String :=
   | "expr" :: rest => runExpr (parseKV rest)
   | "lazy" :: rest => runLazy (parseKV rest)
   | "config" :: rest => runConfig (parseKV rest)
+  | "lu" :: rest => runLU (parseKV rest)
   | _ => "bad-op"
 
 partial def loop (h : IO.FS.Stream) (out : IO.FS.Stream) : IO Unit := do
